@@ -104,6 +104,8 @@ def gen_history(rng, ctx):
             base = rng.choice(addr_pool + sc_pool)
             frames.append(base if c < 0.2 else base - 1 if c < 0.35 else base + 1 if c < 0.5 else
                           base + rng.randrange(0, 1 << 20) if c < 0.8 else rng.choice((0, (1 << 64) - 1, rng.getrandbits(64))))
+        if depth >= 8 and rng.random() < 0.25:
+            frames = [frames[0]] * depth          # deep recursion: consecutive data records carry identical words
         n_records = (depth + 3) // 4 + rng.choice((0, 0, 1))
         nframes = rng.choice((depth, depth, max(0, depth - 1), depth + 2, 4 * n_records, 0, max(0, depth - 5), rng.randrange(depth + 1)))
         if rng.random() < 0.15:
@@ -231,9 +233,11 @@ def one_history(res, rng, ctx):
     # through the front-end, twice on one parser object
     data = wire.v2_file(gen.threadmap_for(events), 8, gen.events_to_records(events))
     p = PyKdebugParser()
-    for rnd in (1, 2):
+    same_stream = io.BytesIO(data)          # the very same stream object, rewound, for the second request
+    for rnd in (1, 2, 3):
         try:
-            got2 = list(p.callstacks(io.BytesIO(data)))
+            same_stream.seek(0)
+            got2 = list(p.callstacks(same_stream if rnd < 3 else io.BytesIO(data)))
         except Exception as x:
             res.violation(f'c15-front-raises-{core.exc_name(x)}', f'{x!r}', case)
             return
@@ -301,6 +305,8 @@ def concurrent_front_ends(res, rng, ctx):
 def run(ctx):
     install_invariant()
     res = core.Result()
+    import random
+    H.set_clock(random.Random(ctx.seed * 7919 + ctx.shard))      # coarse time base: records may share a tick
     rng = ctx.rng
     for i in range(ctx.pick(300, 25000)):
         one_history(res, rng, ctx)
